@@ -35,15 +35,17 @@ theorem query_is_document_order_filter (k : Kind) (gs : List Group) (f : Filters
 /-- **Soundness and completeness over construction parameters.**  For a report built from groups with parameters
 `ps` (consistent with what the constructors accept; evaluation names not reserved), an accepted query returns, in
 document order and once each, exactly the positions of the groups whose parameters say they are of the queried
-kind and satisfy every filter — never a group of another kind, never one failing a filter, never omitting one. -/
+kind and satisfy every filter (whatever session, algorithm identification, time point context and real world value map
+the groups carry: `ContextOK`) — never a group of another kind, never one failing a filter, never omitting one. -/
 theorem query_sound_complete (k : Kind) (ps : List Params) (f : Filters)
-    (hcons : ∀ p ∈ ps, p.consistent = true) (hclean : ∀ p ∈ ps, CleanNames p) (b : Bool) (hargs : argCheck k f = .ok b) :
+    (hcons : ∀ p ∈ ps, p.consistent = true) (hclean : ∀ p ∈ ps, CleanNames p) (hctx : ∀ p ∈ ps, ContextOK p)
+    (b : Bool) (hargs : argCheck k f = .ok b) :
     ∃ l, query k (ps.map mkGroup) f = .ok l ∧ l.Pairwise (· < ·) ∧
       ∀ j, j ∈ l ↔ ∃ p, ps[j]? = some p ∧ specKind k p = true ∧ specFilters k p f = true := by
   have hall : ∀ g ∈ ps.map mkGroup, ∃ b, keep k g f = .ok b := by
     intro g hg
     obtain ⟨p, hp, rfl⟩ := List.mem_map.mp hg
-    exact ⟨_, keep_constructed k p f (hcons p hp) (hclean p hp)⟩
+    exact ⟨_, keep_constructed k p f (hcons p hp) (hclean p hp) (hctx p hp)⟩
   obtain ⟨l, hl⟩ := queryLoop_ok_of_all k f (ps.map mkGroup) 0 hall
   have hq : query k (ps.map mkGroup) f = .ok l := by simp [query, hargs, hl]
   obtain ⟨h1, h2, _, _⟩ := query_is_document_order_filter k _ f l hq
@@ -59,13 +61,13 @@ theorem query_sound_complete (k : Kind) (ps : List Params) (f : Filters)
       simp only [hp, Option.map_some, Option.some.injEq] at hg
       subst hg
       have hmem : p ∈ ps := List.mem_of_getElem? hp
-      rw [keep_constructed k p f (hcons p hmem) (hclean p hmem)] at hk
+      rw [keep_constructed k p f (hcons p hmem) (hclean p hmem) (hctx p hmem)] at hk
       simp only [Except.ok.injEq, Bool.and_eq_true] at hk
       exact ⟨p, rfl, hk.1, hk.2⟩
   · rintro ⟨p, hp, hk1, hk2⟩
     refine ⟨mkGroup p, by rw [List.getElem?_map, hp]; rfl, ?_⟩
     have hmem : p ∈ ps := List.mem_of_getElem? hp
-    rw [keep_constructed k p f (hcons p hmem) (hclean p hmem), hk1, hk2]
+    rw [keep_constructed k p f (hcons p hmem) (hclean p hmem) (hctx p hmem), hk1, hk2]
     rfl
 
 /-- a query whose arguments are refused returns nothing at all: the error of the argument check -/
@@ -242,18 +244,19 @@ theorem reference_tables_total : Covered Gen.planarAllowedRefTypes ∧ Covered G
 
 /-- **Accessors return the construction values**: tracking UID and identifier, finding type and category, finding
 sites, measurements and qualitative evaluations (the latter three in construction order; evaluations exactly — the
-finding, finding category, method, finding site and geometric purpose items are not evaluations). -/
-theorem accessors_return_construction_values (p : Params) (hc : CleanNames p) :
+finding, finding category, method, finding site and geometric purpose items are not evaluations, and neither the NUM /
+CODE items of a time point context nor anything else with a relationship other than CONTAINS is reported). -/
+theorem accessors_return_construction_values (p : Params) (hc : CleanNames p) (hctx : ContextOK p) :
     trackingUidOf (mkGroup p) = some p.trackingUid ∧ trackingIdOf (mkGroup p) = some p.trackingId ∧
     findingTypeOf (mkGroup p) = p.findingType ∧ findingCategoryOf (mkGroup p) = p.findingCategory ∧
     methodOf (mkGroup p) = p.method ∧ findingSitesOf (mkGroup p) = p.sites ∧ measurementsOf (mkGroup p) = p.measurements ∧
     evaluationsOf (mkGroup p) = p.evaluations :=
-  ⟨trackingUid_constructed p, trackingId_constructed p, findingType_constructed p hc, findingCategory_constructed p hc,
-   method_constructed p hc, findingSites_constructed p hc, measurements_constructed p, evaluations_constructed p hc⟩
+  ⟨trackingUid_constructed p, trackingId_constructed p, findingType_constructed p hc hctx, findingCategory_constructed p hc hctx,
+   method_constructed p hc hctx, findingSites_constructed p hc hctx, measurements_constructed p hctx, evaluations_constructed p hc hctx⟩
 
 /-- **The reference type reported is the one constructed with** (planar and volumetric groups; measurement and
 evaluation names must not themselves be reference type names, the accessor looks at names only). -/
-theorem reference_type_returned (p : Params) (hcons : p.consistent = true)
+theorem reference_type_returned (p : Params) (hcons : p.consistent = true) (hctx : ContextOK p)
     (hp : p.kind = .planar → CleanRefNames p Gen.planarAllowedRefTypes)
     (hv : p.kind = .volumetric → CleanRefNames p Gen.volumetricAllowedRefTypes) :
     (p.kind = .planar → referenceTypeOf (mkGroup p) Gen.planarAllowedRefTypes = p.ref.refType) ∧
@@ -261,12 +264,12 @@ theorem reference_type_returned (p : Params) (hcons : p.consistent = true)
   unfold Params.consistent at hcons
   constructor
   · intro hk
-    rw [referenceType_constructed p _ (by decide) (hp hk)]
+    rw [referenceType_constructed p _ (by decide) (by intro n hn; simp only [Gen.planarAllowedRefTypes, List.contains_cons, List.contains_nil, Bool.or_false, Bool.or_eq_true, beq_iff_eq] at hn; rcases hn with h | h | h <;> subst h <;> decide) (hp hk) hctx]
     rw [hk] at hcons
     cases hr : p.ref <;> rw [hr] at hcons <;> simp at hcons <;>
       simp [refItems, RoiRef.refType, Gen.planarAllowedRefTypes, cImageRegion, cReferencedSegmentationFrame, cRegionInSpace]
   · intro hk
-    rw [referenceType_constructed p _ (by decide) (hv hk)]
+    rw [referenceType_constructed p _ (by decide) (by intro n hn; simp only [Gen.volumetricAllowedRefTypes, List.contains_cons, List.contains_nil, Bool.or_false, Bool.or_eq_true, beq_iff_eq] at hn; rcases hn with h | h | h | h <;> subst h <;> decide) (hv hk) hctx]
     rw [hk] at hcons
     cases hr : p.ref with
     | regions2d rs =>
@@ -312,6 +315,13 @@ def exReport : List Params := [
     ref := .region3d "POLYGON", template := true }]
 
 example : ∀ p ∈ exReport, p.consistent = true := by decide
+/-- a time point context (TEXT, CODE and NUM with HAS OBS CONTEXT) and a real-world-value-map reference satisfy `ContextOK` -/
+example : ∀ it ∈ ([{ name := "C2348792|UMLS", vt := "TEXT", rel := "HAS OBS CONTEXT", value := "baseline" },
+                    { name := "126072|DCM", vt := "CODE", rel := "HAS OBS CONTEXT", value := "TP1|99V" },
+                    { name := "126073|DCM", vt := "NUM", rel := "HAS OBS CONTEXT", value := "2" },
+                    { name := cRwvm, vt := "COMPOSITE", rel := "CONTAINS", ref := some ⟨"rwv", "1.9"⟩ }] : List GItem),
+    (it.vt = "TEXT" ∨ ((it.vt = "CODE" ∨ it.vt = "NUM") ∧ it.rel = "HAS OBS CONTEXT") ∨ (it.vt = "COMPOSITE" ∧ it.name = cRwvm)) ∧
+    fixedNames.contains it.name = false := by decide
 example : ∀ p ∈ exReport, ∀ e ∈ p.evaluations, reservedCodeNames.contains e.1 = false := by decide
 example : query .planar (exReport.map mkGroup) {} = .ok [0, 2, 5] := by decide
 example : query .volumetric (exReport.map mkGroup) {} = .ok [1, 4] := by decide
